@@ -29,10 +29,14 @@ THEOREMS = [
 ]
 PARTIAL = []
 COMPONENTS = ['orderbook builder vs OrderBook.setup_optim_problem', 'orderbook read-out (dispatch, DCF, special rows) vs io.extract_output']
-RULE = ('1-6 orders of 18 placement kinds (inside, straddling, outside before/after, off-grid, touching, zero-length, reversed), dates naive/strings/zone-aware, dict and DataFrame form, 13 grids incl. MS and DST days, 5 zones, wacc, NaN/length malformations; '
+RULE = ('1-6 orders of 18 placement kinds (inside, straddling, outside before/after, off-grid, touching, zero-length, reversed), dates naive/strings/zone-aware, '
+        'capacities and prices as floats (eighths), whole numbers given as Python ints, whole floats or entry-wise mixed (about 30% of the cases all ints in both columns, half of those on a grid '
+        'drawn from the 15min/30min and main-time-unit d/min combinations and half with wacc > 0, so that whole numbers meet fractional discounted durations); orders as dict of lists / tuples / numpy arrays (int64, float64, object) / lists of numpy scalars / Series, '
+        'or as DataFrame with int64 / float64 / object columns; 15 grids incl. MS and DST days, 5 zones, wacc, NaN/length malformations; '
         'half of the cases embedded in a portfolio (market, sometimes storage) and optimised; non-trivial = some order executed / covering a step; distinct by case hash')
 ASSUMPTIONS = ['independent reference LP solved with scipy linprog (full execution: enumeration of 0/1 patterns, one LP each)', 'tolerance 1e-9 where the implementation computes with non-dyadic numbers']
-EXPLANATION = 'theorems about the model of the OrderBook builder and the order read-out; correspondence; oracles on the real code incl. an independent per-order formulation and the inertness metamorphic test'
+EXPLANATION = ('theorems about the model of the OrderBook builder and the order read-out; correspondence; oracles on the real code incl. an independent per-order formulation and the inertness metamorphic test; '
+               'the model and the oracles take the exact rational values of the orders, whatever the numeric type and container in which the implementation receives them')
 
 
 def scenarios(seed, tier):
